@@ -41,6 +41,13 @@ TOPO = {
     # three quadrilaterals in a row, the LAST cell uses the lowest vertex numbers (cell index 2 is also a vertex index of an edge)
     'quad3row': ('MeshQuad1', [[0.0, 1.0, 1.09375, 0.0625, 2.0625, 2.125, 3.0, 3.15625], [0.0, 0.0625, 1.0, 0.9375, -0.09375, 1.09375, 0.03125, 0.96875]],
                  [[1, 4, 0], [4, 6, 1], [5, 7, 2], [2, 5, 3]]),
+    # 2 x 2 patch of quadrilaterals around an interior vertex; the corner vertices (each in ONE cell) carry the highest labels:
+    #   6--4--5        labels:  v00=8 v10=0 v20=7 / v01=2 v11=1 v21=3 / v02=6 v12=4 v22=5
+    #   2--1--3
+    #   8--0--7
+    'quad4grid': ('MeshQuad1', [[1.0, 1.15625, 0.09375, 2.125, 1.03125, 2.09375, -0.0625, 2.0625, 0.0],
+                                [0.0625, 1.0, 0.875, 1.09375, 2.125, 2.0625, 2.0, -0.09375, 0.0]],
+                  [[8, 0, 2, 1], [0, 7, 1, 3], [1, 3, 4, 5], [2, 1, 6, 4]]),
     'tet1': ('MeshTet1', [[0.0, 1.0, 0.125, 0.09375], [0.0, 0.0625, 1.0, 0.15625], [0.0, 0.03125, 0.09375, 1.0]],
              [[0], [1], [2], [3]]),
     'tet2': ('MeshTet1', [[0.0, 1.0, 0.125, 0.09375, 0.90625], [0.0, 0.0625, 1.0, 0.15625, 0.84375],
